@@ -6,14 +6,19 @@
 (* An object store is a record of six presence sets                        *)
 (*     c  commits      t  tables        ti table indices                   *)
 (*     p  profiles     b  blocks        bi block indices                   *)
-(* over small naturals.  ti/p are named after their table, bi after its    *)
-(* block (both are functions of that object in the real store).            *)
+(* over small naturals.  ti/p are named after their table (functions of    *)
+(* that object in the real store).  A block index is NOT a function of its *)
+(* block: it is computed from the block's rows AND the table's primary     *)
+(* key, so two tables that list the same block under different keys have   *)
+(* two block indices for it (bix below; a table listing blocks under the   *)
+(* key most tables use names its block indices after the blocks).          *)
 (*                                                                         *)
 (* A repository description R is a record                                  *)
 (*     n      commits are 1..n                                             *)
 (*     par    [1..n -> SUBSET 1..n]   parents (earlier commits)            *)
 (*     tab    [1..n -> table]         the table a commit names             *)
 (*     blk    [table -> SUBSET block] blocks a table object lists          *)
+(*     bix    [table -> SUBSET bidx]  block indices a table object lists   *)
 (*     roots  SUBSET 1..n             commits some ref points at; refs of  *)
 (*                                    every kind count alike: heads, tags, *)
 (*                                    remote-tracking refs and refs of     *)
@@ -53,6 +58,7 @@ AbsentLiveT(R, S) == LiveTabs(R, S) \ S.t
 (* stored tables that only removed commits name (at least one does) *)
 DeadT(R, S) == {u \in S.t \ LiveTabs(R, S) : \E x \in Dead(R, S) : R.tab[x] = u}
 LiveB(R, S) == UNION {R.blk[u] : u \in LiveT(R, S)}
+LiveBI(R, S) == UNION {R.bix[u] : u \in LiveT(R, S)}
 (* stored blocks listed by a removed table and by no stored table that may stay *)
 DeadB(R, S) == {y \in S.b \ LiveB(R, S) :
                   /\ \E u \in DeadT(R, S) : y \in R.blk[u]
@@ -65,7 +71,7 @@ Must(R, S) ==
    ti |-> LiveT(R, S) \cap S.ti,
    p  |-> LiveT(R, S) \cap S.p,
    b  |-> LiveB(R, S) \cap S.b,
-   bi |-> LiveB(R, S) \cap S.bi]
+   bi |-> LiveBI(R, S) \cap S.bi]
 
 (* unreachable commits, tables only they referenced, blocks only those referenced *)
 MustNot(R, S) ==
@@ -142,7 +148,7 @@ SweepTablesAsCoded ==
 MarkBlocks ==
   /\ pc = "markBlocks"
   /\ keepB'  = UNION {R.blk[u] : u \in st.t} \cap st.b
-  /\ keepBI' = UNION {R.blk[u] : u \in st.t} \cap st.bi
+  /\ keepBI' = UNION {R.bix[u] : u \in st.t} \cap st.bi
   /\ pc' = "sweepBlocks"
   /\ UNCHANGED <<R, s0, s1, st, run, live, crashed>>
 
